@@ -96,6 +96,40 @@ def _judge(ctx, tag):
     return [{"line": ln, "op": _clip(cases[ln - 1], 200), "model": _clip(a, 300), "spec": _clip(b, 300)} for (ln, a, b) in s2]
 
 
+# documented ambiguity of files written by redb < 4.2: the legacy spelling Internal "Option<u32>" was stored for Option<u32> AND
+# for Option<user type named u32>; both still open it (baseline test legacy_colliding_user_composite_can_still_open_as_builtin)
+CONFUSION_ALLOWED = {("TLegOpt", "TOptFake")}
+
+
+def _confusion(ctx):
+    """S3, independent of TypeName: the exhaustive matrix of ordered type pairs (A stored, B requested) written by the harness
+    with hand-assigned identities; an open that succeeds although the identities differ is type confusion."""
+    n = bad = 0
+    for l in _read(ctx, "confusion.txt"):
+        if not l.strip():
+            continue
+        f = [x.strip() for x in l.split("|")]
+        if len(f) < 6:
+            ctx.violation("c17-confusion-matrix-broken", "type-confusion matrix did not run: " + l[:300], {"line": l[:500]})
+            continue
+        a, aid, b, bid, k, v = f[:6]
+        n += 1
+        for pos, res in (("key", k), ("value", v)):
+            if "PANIC" in res:
+                ctx.violation("c17-open-panic", "opening a table created with %s type %s as %s panicked: %s" % (pos, aid, bid, res[:300]),
+                              {"stored": a, "requested": b, "position": pos, "result": res})
+            elif ("w=ok" in res or "r=ok" in res) and aid != bid and (a, b) not in CONFUSION_ALLOWED:
+                bad += 1
+                ctx.violation("c17-type-confusion",
+                              "a table created with %s type `%s` (%s) opens with %s type `%s` (%s) instead of being refused: %s -- its bytes are reinterpreted"
+                              % (pos, aid, a, pos, bid, b, res),
+                              {"stored": a, "stored_identity": aid, "requested": b, "requested_identity": bid, "position": pos, "result": res,
+                               "how": "harness c17 writes confusion.txt: create table with the stored type, commit, open with the requested type in a write and a read transaction"})
+    if n == 0:
+        ctx.violation("c17-confusion-matrix-broken", "type-confusion matrix is empty", {})
+    return {"ordered_type_pairs": n, "confusions": bad}
+
+
 def run(ctx):
     t0 = time.time()
     s1 = ctx.proof_obligations()
@@ -126,6 +160,7 @@ def run(ctx):
         cov["samples"].append({"storage_probe": _read(ctx, "probes.txt")[0]})
         vac = [l for l in _read(ctx, "probes.txt") if "VACUOUS" in l]
         cov["input_distribution"]["vacuous_probes"] = len(vac)
+        cov["input_distribution"]["type_confusion_matrix"] = _confusion(ctx)
         d = _judge(ctx, "main")
         if d:
             s2_ok, s2_detail = False, {"what": "extracted model and spec disagree (contradicts catalog_refines)", "first": d}
